@@ -46,6 +46,13 @@ class RecoverSuite:
             self.stats["images"] += 1
             self.stats["torn_images"] += "@" not in parts[0] and parts[0].split(".")[1] != "-"
             bad = None
+            if parts[1] == "panic":
+                # whatever the model says: an open call that panics is not "fails with an error"
+                self.stats["panics"] = self.stats.get("panics", 0) + 1
+                seen_bad.add(c)
+                prop.append({"case": c, "impl": lib.trunc("|".join(parts[:4]), 800), "spec": "", "model": lib.trunc(" ".join(ml), 300),
+                             "detail": "image %s: DB::open panicked" % parts[0]})
+                continue
             if len(ml) < 3:
                 bad = "model run failed: " + " ".join(ml)[:200]
             elif ml[1] == "err":
